@@ -83,6 +83,10 @@ macro_rules! core_ops_impl {
                 "glwe_switching_key_prepare",
                 "ggsw_prepare",
                 "cmux",
+                "circuit_bootstrapping_execute_to_constant",
+                "circuit_bootstrapping_execute_to_exponent",
+                "circuit_bootstrapping_key_encrypt_sk",
+                "circuit_bootstrapping_key_prepare",
             ];
 
             /// Runs `body` with a scratch window of the chosen mode under the arena monitor.
@@ -337,6 +341,113 @@ macro_rules! core_ops_impl {
                         let declared = m.glwe_normalize_tmp_bytes();
                         let r = windowed(declared, w, &mut |s| m.glwe_normalize(&mut res, &a, s));
                         finish(r, declared, vec![res.data().data.clone()])
+                    }
+                    "circuit_bootstrapping_execute_to_constant"
+                    | "circuit_bootstrapping_execute_to_exponent"
+                    | "circuit_bootstrapping_key_encrypt_sk"
+                    | "circuit_bootstrapping_key_prepare" => {
+                        use poulpy_bin_fhe::circuit_bootstrapping::{
+                            CircuitBootstrappingEncryptionInfos, CircuitBootstrappingExecute, CircuitBootstrappingKey,
+                            CircuitBootstrappingKeyEncryptSk, CircuitBootstrappingKeyPrepared, CircuitBootstrappingKeyPreparedFactory,
+                        };
+                        use poulpy_core::layouts::{LWE, LWELayout};
+                        let rank = sh.rank_out.min(2);
+                        // result GGSW: at least two limbs, dsize 1
+                        let size_res = sh.k_res.div_ceil(sh.b_res).max(2);
+                        let k_res = sh.b_res * (size_res - 1) + 1 + (sh.k_res % sh.b_res).min(sh.b_res - 1);
+                        let k_big = sh.k_key.max(k_res);
+                        let rows = |b: u32, k: u32| -> u32 { (k.div_ceil(b)).saturating_sub(1).max(1) };
+                        let n_lwe = sh.n_lwe.max(2);
+                        let block = if n_lwe % 3 == 0 { 3 } else if n_lwe % 2 == 0 { 2 } else { 1 };
+                        let b_tsk = sh.b_key.saturating_sub(1).max(6);
+                        let cbt_infos = CircuitBootstrappingKeyLayout {
+                            brk_layout: BlindRotationKeyLayout {
+                                n_glwe: Degree(sh.n),
+                                n_lwe: Degree(n_lwe),
+                                base2k: Base2K(sh.b_in),
+                                k: TorusPrecision(k_big),
+                                dnum: Dnum(rows(sh.b_in, k_big)),
+                                rank: Rank(rank),
+                            },
+                            atk_layout: GLWEAutomorphismKeyLayout {
+                                n: Degree(sh.n),
+                                base2k: Base2K(sh.b_key),
+                                k: TorusPrecision(k_big),
+                                rank: Rank(rank),
+                                dnum: Dnum(rows(sh.b_key, k_big)),
+                                dsize: Dsize(1),
+                            },
+                            tsk_layout: GGLWEToGGSWKeyLayout {
+                                n: Degree(sh.n),
+                                base2k: Base2K(b_tsk),
+                                k: TorusPrecision(k_big),
+                                rank: Rank(rank),
+                                dnum: Dnum(rows(b_tsk, k_big)),
+                                dsize: Dsize(1),
+                            },
+                        };
+                        let ggsw_infos = GGSWLayout {
+                            n: Degree(sh.n),
+                            base2k: Base2K(sh.b_res),
+                            k: TorusPrecision(k_res),
+                            rank: Rank(rank),
+                            dnum: Dnum((size_res - 1).max(1)),
+                            dsize: Dsize(1),
+                        };
+                        let mut sk_lwe: LWESecret<Vec<u8>> = LWESecret::alloc(Degree(n_lwe));
+                        sk_lwe.fill_binary_block(block as usize, &mut src(sh.seed, 9));
+                        let (sk_glwe, _) = sk(c, rank, sh.seed);
+                        let mut key: CircuitBootstrappingKey<Vec<u8>, CGGI> = CircuitBootstrappingKey::alloc_from_infos(&cbt_infos);
+                        let enc = CircuitBootstrappingEncryptionInfos::from_default_sigma(&cbt_infos).unwrap();
+                        if op == "circuit_bootstrapping_key_encrypt_sk" {
+                            let declared = m.circuit_bootstrapping_key_encrypt_sk_tmp_bytes(&cbt_infos);
+                            let r = windowed(declared, w, &mut |s| {
+                                m.circuit_bootstrapping_key_encrypt_sk(&mut key, &sk_lwe, &sk_glwe, &enc, &mut src(sh.seed, 3), &mut src(sh.seed, 4), s)
+                            });
+                            let mut bytes = Vec::new();
+                            poulpy_hal::layouts::WriterTo::write_to(&key, &mut bytes).unwrap();
+                            return finish(r, declared, vec![bytes]);
+                        }
+                        m.circuit_bootstrapping_key_encrypt_sk(
+                            &mut key,
+                            &sk_lwe,
+                            &sk_glwe,
+                            &enc,
+                            &mut src(sh.seed, 3),
+                            &mut src(sh.seed, 4),
+                            big.borrow(),
+                        );
+                        let mut kp: CircuitBootstrappingKeyPrepared<DeviceBuf<BE>, CGGI, BE> =
+                            CircuitBootstrappingKeyPrepared::alloc_from_infos(m, &cbt_infos);
+                        let lwe_b = 3 + sh.extra;
+                        let lwe_infos = LWELayout {
+                            n: Degree(n_lwe),
+                            k: TorusPrecision(2 * lwe_b),
+                            base2k: Base2K(lwe_b),
+                        };
+                        let mut lwe: LWE<Vec<u8>> = LWE::alloc_from_infos(&lwe_infos);
+                        lwe.fill_uniform(lwe_b as usize, &mut src(sh.seed, 6));
+                        let mut res: GGSW<Vec<u8>> = GGSW::alloc_from_infos(&ggsw_infos);
+                        if op == "circuit_bootstrapping_key_prepare" {
+                            let declared = m.circuit_bootstrapping_key_prepare_tmp_bytes(&cbt_infos);
+                            let r = windowed(declared, w, &mut |s| kp.prepare(m, &key, s));
+                            if r.0.is_ok() {
+                                kp.execute_to_constant(m, &mut res, &lwe, 1, 1, big.borrow());
+                            }
+                            let mut bytes = Vec::new();
+                            poulpy_hal::layouts::WriterTo::write_to(&res, &mut bytes).unwrap();
+                            return finish(r, declared, vec![bytes]);
+                        }
+                        kp.prepare(m, &key, big.borrow());
+                        let declared = m.circuit_bootstrapping_execute_tmp_bytes(block as usize, 1, &ggsw_infos, &cbt_infos);
+                        let r = if op == "circuit_bootstrapping_execute_to_constant" {
+                            windowed(declared, w, &mut |s| kp.execute_to_constant(m, &mut res, &lwe, 1, 1, s))
+                        } else {
+                            windowed(declared, w, &mut |s| kp.execute_to_exponent(m, 1, &mut res, &lwe, 1, 1, s))
+                        };
+                        let mut bytes = Vec::new();
+                        poulpy_hal::layouts::WriterTo::write_to(&res, &mut bytes).unwrap();
+                        finish(r, declared, vec![bytes])
                     }
                     _ => (Err(format!("unknown op {op}")), None),
                 }
